@@ -98,7 +98,7 @@ def finish(ctx: Ctx, t0, seed, extra_cov=None, print_fn=print):
     old = [o for o in findings if Ctx.key(o) in known_keys]
     for o in old:
         k = next(k for k in known if (k["rule"], k["instance"], k.get("statement", "")) == Ctx.key(o))
-        print_fn(f"KNOWN-FINDING: property={ctx.pid} {k.get('what', o['why'])} [{o['rule']} {o['instance']}]")
+        print_fn(f"KNOWN-FINDING: property={ctx.pid} {k.get('short') or k.get('what', o['why'])} [{o['rule']} {o['instance']}]")
     os.makedirs(EVIDENCE_DIR, exist_ok=True)
     os.makedirs(REPORT_DIR, exist_ok=True)
     n_ob = len(ctx.obligations)
